@@ -10,15 +10,18 @@
 (* Unregistered *sections* under QAC_IGNOREUNKNOWN are outside the generated documents (undocumented). *)
 EXTENDS Integers, Sequences, TLC, Json, IOUtils, SequencesExt
 CONSTANT PinnedBool      \* TRUE would model the pinned defect (every false spelling rejected); checks use FALSE
-\* option table: take = -1 means TAKEALL; types: per-argument type for positions 1..5 ("" = use default), def = default type
-Opt(take, t1, t2, def, sid, secs) == [take |-> take, t1 |-> t1, t2 |-> t2, def |-> def, sid |-> sid, secs |-> secs]
-Table == [Listen |-> Opt(1, "int", "", "str", 0, 0),
-          Flag   |-> Opt(1, "bool", "", "str", 0, 1),
-          Domain |-> Opt(1, "", "", "str", 2, 1),
-          Host   |-> Opt(1, "", "", "str", 4, 2),
-          TTL    |-> Opt(1, "int", "", "str", 0, 6),
-          Mix    |-> Opt(-1, "bool", "int", "float", 0, 0),
-          Pair   |-> Opt(2, "", "", "str", 0, 0)]
+\* option table: take = -1 means TAKEALL; ts: per-argument types for the leading positions ("" = use default; only
+\* positions 1..5 can carry a type of their own and only they are checked at all), def = default type
+Opt(take, ts, def, sid, secs) == [take |-> take, ts |-> ts, def |-> def, sid |-> sid, secs |-> secs]
+Table == [Listen |-> Opt(1, <<"int">>, "str", 0, 0),
+          Flag   |-> Opt(1, <<"bool">>, "str", 0, 1),
+          Domain |-> Opt(1, <<>>, "str", 2, 1),
+          Host   |-> Opt(1, <<>>, "str", 4, 2),
+          TTL    |-> Opt(1, <<"int">>, "str", 0, 6),
+          Mix    |-> Opt(-1, <<"bool", "int">>, "float", 0, 0),
+          Pair   |-> Opt(2, <<>>, "str", 0, 0),
+          Five   |-> Opt(5, <<"int", "", "float", "int", "bool">>, "str", 0, 0),
+          Many   |-> Opt(-1, <<>>, "bool", 0, 0)]
 Known == DOMAIN Table
 \* a line: [t, name (canonical), alt (rendered in other case), shown (argv0 as rendered), args: Seq([txt, kind])]
 \* kinds: "int", "float", "bool1", "bool0", "int1" (the token 1), "int0" (the token 0), "str"
@@ -28,7 +31,7 @@ BoolVal(k) == IF k \in {"bool1", "int1"} THEN 1 ELSE IF k \in {"bool0", "int0"} 
 BitAnd(a, b) == \* small masks only (0..7)
   LET bit(x, i) == (x \div (2^i)) % 2 IN bit(a,0)*bit(b,0) + 2*bit(a,1)*bit(b,1) + 4*bit(a,2)*bit(b,2)
 BitOr(a, b) == a + b - BitAnd(a, b)
-ArgType(o, j) == LET t == IF j = 1 THEN o.t1 ELSE IF j = 2 THEN o.t2 ELSE "" IN IF t = "" THEN o.def ELSE t
+ArgType(o, j) == LET t == IF j <= Len(o.ts) THEN o.ts[j] ELSE "" IN IF t = "" THEN o.def ELSE t
 \* check + normalise arguments: returns <<ok, args'>>
 CheckArgs(o, args) ==
   LET n == Len(args)
